@@ -172,7 +172,6 @@ def probes(ctx):
     # enabled.  Witness: control register all 0 for 6 cycles, then enabled without reset mode until it times out.
     inst = L.mk_watchdog(4, 0)
     w = [(0, 0, 0, 0, 0, 0)] * 6 + [(0, 1, 0, 0, 0, 0)] * 4
-    r = replay_with_monitor(inst, w)
     n = inst.netlist
     highs = []
     for t, letter in enumerate(w):
@@ -182,9 +181,8 @@ def probes(ctx):
         if n.getu(inst.outputs[1]):
             highs.append(t)
         n.tick()
-    out.append((F_WD0, bool(highs) or r is not None,
-                "Watchdog(reset_delay=0): crg_rst high in cycles %s without a timeout in reset mode%s" % (
-                    highs, "; monitor: cycle %d: %s" % r if r else "") if (highs or r) else "witness passes"))
+    out.append((F_WD0, bool(highs), ("Watchdog(reset_delay=0): crg_rst high in cycles %s without a timeout in reset mode" % highs)
+                if highs else "witness passes"))
     # notes (outside the property's quantifier, DESIGN 7.C19 / 8.3): kept visible in the evidence
     ctx.cov.notes.append("SPIMaster: length = 0 or length > 2^bits_for(data_width-1) never leaves RUN; clk_divider < 2 never "
                          "leaves START/STOP; lowering clk_divider at run time below the running counter stalls the clock "
